@@ -62,7 +62,10 @@ RULE = ('(a) every name registered in the installed entry points (run: codes, er
         'invocations compared with the model; (b) random run / run-ftp command lines (option order and spelling, '
         'valid and out-of-range / nan / non-numeric probabilities, -r/-f/-s/-m/TIME_STEPS in and out of range, good and '
         'malformed specs, serialisable and unserialisable payload) x output situations (stdout, new file, existing '
-        'file, existing directory, missing directory, parent is a file, over-long name) with app.run / app.run_ftp '
+        'file with content / empty / read-only, existing directory (empty / not), symlink to a file / an empty file / a '
+        'directory / nowhere, missing directory, parent is a file, over-long name; the target\'s FULL state - existence, '
+        'type, inode, size, mode, mtime, content, what a symlink resolves to, the listing around it - is snapshotted '
+        'from the file system before and after: an existing target must be unchanged in every respect) with app.run / app.run_ftp '
         'replaced by a recording sentinel (which refuses what app.run / app.run_ftp refuse, so that results dropped by '
         'an exception inside the API are observable): events, simulation-call list, stdout / file / log / exit compared '
         'with the model; a deterministic sweep of every float spelling click FLOAT accepts or refuses (nan / inf in every '
@@ -703,64 +706,183 @@ def spelling_recipes(n0):
     return out
 
 
+def _node(path, follow):
+    """state of one file-system node: type, inode, size, mode, mtime, link text / directory listing / content"""
+    import stat as _stat
+    try:
+        st = os.stat(path) if follow else os.lstat(path)
+    except OSError:
+        return {'exists': False}
+    d = {'exists': True, 'type': {_stat.S_IFREG: 'file', _stat.S_IFDIR: 'dir', _stat.S_IFLNK: 'symlink'}.get(
+        _stat.S_IFMT(st.st_mode), 'other'), 'inode': st.st_ino, 'size': st.st_size,
+        'mode': oct(_stat.S_IMODE(st.st_mode)), 'mtime_ns': st.st_mtime_ns}
+    if d['type'] == 'symlink':
+        d['link'] = os.readlink(path)
+    elif d['type'] == 'dir':
+        d['listing'] = sorted(os.listdir(path))
+    elif d['type'] == 'file':
+        try:
+            with open(path, 'rb') as f:
+                d['content'] = f.read().decode('latin-1')
+        except OSError as ex:
+            d['content'] = 'unreadable: ' + type(ex).__name__
+    return d
+
+
+def snapshot(path):
+    """FULL state of an output target, taken from the file system (not through an open handle): the node itself
+    (existence, type, inode, size, mode, mtime, content / listing / link text), what a symlink resolves to, and the
+    listing of the nearest existing ancestor directory (so that stray files / directories next to the target show)"""
+    if path is None:
+        return None
+    snap = {'node': _node(path, follow=False)}
+    if snap['node'].get('type') == 'symlink':
+        snap['resolved'] = _node(path, follow=True)
+    anc = os.path.dirname(os.path.abspath(path))
+    while anc and not os.path.isdir(anc) and os.path.dirname(anc) != anc:
+        anc = os.path.dirname(anc)
+    snap['ancestor'] = {'dir': anc, 'node': {k: v for k, v in _node(anc, follow=False).items() if k != 'mtime_ns'}}
+    return snap
+
+
+def snapshot_diff(before, after):
+    """the respects in which the target's state changed: list of 'where.field: before -> after'"""
+    out = []
+    for part in ('node', 'resolved'):
+        a, b = (before or {}).get(part) or {}, (after or {}).get(part) or {}
+        if a.get('exists') and b and not b.get('exists'):
+            out.append('{} DELETED (was a {} of size {}, inode {}, mode {})'.format(
+                'the existing target was' if part == 'node' else 'what the symlink resolved to was', a.get('type'),
+                a.get('size'), a.get('inode'), a.get('mode')))
+            continue
+        for k in sorted(set(a) | set(b)):
+            if a.get(k) != b.get(k):
+                out.append('{}.{}: {!r} -> {!r}'.format(part, k, a.get(k), b.get(k)))
+    a, b = (before or {}).get('ancestor') or {}, (after or {}).get('ancestor') or {}
+    if a != b:
+        out.append('ancestor directory {}: listing / state {!r} -> {!r}'.format(
+            a.get('dir'), (a.get('node') or {}).get('listing'), (b.get('node') or {}).get('listing')))
+    return out
+
+
+LAST_STATE = {}     # before / after snapshots and their differences of the most recent file_state() call (for the reports)
+
+
 def fs_setup(tmp, situation, n):
-    """returns (output argument or None, fs token, path to inspect or None, content before or None)"""
+    """returns (output argument or None, fs token, path to inspect or None, full snapshot of the target before or None).
+    Pre-existing target STATES are a class: empty file, file with content, read-only file (with content / empty),
+    directory (empty / non-empty), symlink to a file / to an empty file / to a directory / to nowhere, and paths that
+    cannot be created (missing directory, parent is a file, over-long name)."""
     d = os.path.join(tmp, 'o{}'.format(n))
     os.makedirs(d)
+
+    def ret(arg, tok, path):
+        return arg, tok, path, snapshot(path)
+
+    def mkfile(name, content, mode=None):
+        q = os.path.join(d, name)
+        with open(q, 'w') as f:
+            f.write(content)
+        if mode is not None:
+            os.chmod(q, mode)
+        return q
     if situation == 'stdout-default':
         return None, 'creatable', None, None
     if situation == 'stdout-dash':
         return '-', 'creatable', None, None
     if situation == 'new':
-        return os.path.join(d, 'out.json'), 'creatable', os.path.join(d, 'out.json'), None
+        return ret(os.path.join(d, 'out.json'), 'creatable', os.path.join(d, 'out.json'))
     if situation == 'new-relative':
-        return os.path.join(os.path.relpath(d, os.getcwd()), 'out file.json'), 'creatable', \
-            os.path.join(d, 'out file.json'), None
+        return ret(os.path.join(os.path.relpath(d, os.getcwd()), 'out file.json'), 'creatable',
+                   os.path.join(d, 'out file.json'))
     if situation == 'exists':
-        p = os.path.join(d, 'out.json')
-        with open(p, 'w') as f:
-            f.write('OLD CONTENT {}\n'.format(n))
-        return p, 'exists', p, 'OLD CONTENT {}\n'.format(n)
+        p = mkfile('out.json', 'OLD CONTENT {}\n'.format(n))
+        return ret(p, 'exists', p)
     if situation == 'exists-empty':
-        p = os.path.join(d, 'empty.json')
-        open(p, 'w').close()
-        return p, 'exists', p, ''
+        p = mkfile('empty.json', '')
+        return ret(p, 'exists', p)
+    if situation == 'exists-readonly':
+        p = mkfile('ro.json', 'READ ONLY {}\n'.format(n), 0o444)
+        return ret(p, 'exists', p)
+    if situation == 'exists-empty-readonly':
+        p = mkfile('ro-empty.json', '', 0o400)
+        return ret(p, 'exists', p)
     if situation == 'exists-dir':
-        return d, 'exists', d, None
+        return ret(d, 'exists', d)
+    if situation == 'exists-dir-nonempty':
+        q = os.path.join(d, 'results')
+        os.makedirs(q)
+        with open(os.path.join(q, 'kept.json'), 'w') as f:
+            f.write('[]')
+        return ret(q, 'exists', q)
+    if situation in ('exists-symlink-file', 'exists-symlink-empty', 'exists-symlink-dir', 'exists-symlink-dangling'):
+        p = os.path.join(d, 'link.json')
+        if situation == 'exists-symlink-file':
+            os.symlink(mkfile('target.json', 'LINKED CONTENT {}\n'.format(n)), p)
+        elif situation == 'exists-symlink-empty':
+            mkfile('target-empty.json', '')
+            os.symlink('target-empty.json', p)          # relative link text
+        elif situation == 'exists-symlink-dir':
+            os.makedirs(os.path.join(d, 'tdir'))
+            os.symlink(os.path.join(d, 'tdir'), p)
+        else:
+            os.symlink(os.path.join(d, 'nowhere.json'), p)
+        return ret(p, 'exists', p)
     if situation == 'missing-dir':
         p = os.path.join(d, 'nodir', 'out.json')
-        return p, 'notcreatable', p, None
+        return ret(p, 'notcreatable', p)
     if situation == 'parent-is-file':
         q = os.path.join(d, 'afile')
         with open(q, 'w') as f:
             f.write('x')
         p = os.path.join(q, 'out.json')
-        return p, 'notcreatable', p, None
+        return ret(p, 'notcreatable', p)
     if situation == 'name-too-long':
         p = os.path.join(d, 'n' * 300 + '.json')
-        return p, 'notcreatable', p, None
+        return ret(p, 'notcreatable', p)
     raise ValueError(situation)
 
 
 SITUATIONS = ['stdout-default', 'stdout-dash', 'new', 'new-relative', 'exists', 'exists-empty', 'exists-dir',
-              'missing-dir', 'parent-is-file', 'name-too-long']
+              'missing-dir', 'parent-is-file', 'name-too-long', 'exists-readonly', 'exists-empty-readonly',
+              'exists-dir-nonempty', 'exists-symlink-file', 'exists-symlink-empty', 'exists-symlink-dir',
+              'exists-symlink-dangling']
 
 
 def file_state(path, before):
-    """'u' untouched / 'c:<content>' created / state after the command"""
+    """'u' the target is untouched IN EVERY RESPECT (existence, type, inode, size, mode, mtime, content, what a symlink
+    resolves to, no stray entries next to it) / 'c' a new regular file was created where nothing was (its content is
+    returned) / 'p' anything else.  Compares full snapshots taken from the file system before and after the command."""
+    LAST_STATE.clear()
     if path is None:
         return 'u', None
-    if os.path.isdir(path):
-        return ('u', None) if before is None and not os.listdir(path) else ('p', None)
-    if not os.path.lexists(path):
+    after = snapshot(path)
+    diff = snapshot_diff(before, after)
+    LAST_STATE.update(before=before, after=after, diff=diff)
+    if not diff:
         return 'u', None
-    try:
-        content = open(path).read()
-    except OSError:
-        return 'p', None
-    if before is not None:
-        return ('u', None) if content == before else ('p', content)
-    return 'c', content
+    content = after['node'].get('content') if after['node'].get('type') == 'file' else None
+    if not before['node']['exists'] and after['node'].get('type') == 'file' and 'resolved' not in after and \
+            before['ancestor']['dir'] == after['ancestor']['dir'] == os.path.dirname(os.path.abspath(path)) and \
+            after['ancestor']['node'].get('listing') == sorted(before['ancestor']['node'].get('listing', []) +
+                                                               [os.path.basename(path)]) and \
+            {k: v for k, v in after['ancestor']['node'].items() if k not in ('listing', 'size')} == \
+            {k: v for k, v in before['ancestor']['node'].items() if k not in ('listing', 'size')}:
+        return 'c', content
+    return 'p', content
+
+
+def state_report():
+    """what file_state() saw last, for monitor reports"""
+    def brief(sn):
+        if not sn:
+            return None
+        out = {k: v for k, v in sn['node'].items()}
+        if 'resolved' in sn:
+            out['resolves_to'] = sn['resolved']
+        return out
+    return {'target_before': brief(LAST_STATE.get('before')), 'target_after': brief(LAST_STATE.get('after')),
+            'target_changes': LAST_STATE.get('diff')}
 
 
 def gen_cmdline(rng, tmp, n):
@@ -878,6 +1000,7 @@ def run_cmd_case(rc, tmp, split_of=None, driver=None):
         res, tb, err = invoke(argv)
     hit = pwned()
     fstate, content = file_state(path, before)
+    seen_state = state_report()
     # expected JSON text of what the sentinel returned
     payload = [{'sentinel': i + 1, 'error_probability': s['p'], 'n_run': 3, 'tup': [1, 2]}
                for i, s in enumerate(rec.sims) if not s.get('refused')]
@@ -938,7 +1061,8 @@ def run_cmd_case(rc, tmp, split_of=None, driver=None):
                                for x in rec.sims][:4], lost),
                           'invalid-not-usage-error'))
         if fstate != 'u':
-            fails.append(('usage error but the output path was touched', 'usage-touches-file'))
+            fails.append(('usage error but the output path was touched: {}'.format('; '.join(seen_state['target_changes'])),
+                          'usage-touches-file'))
     else:
         # accepted: one simulation per probability, in order, with exactly the options given
         ov = {r: v for r, _, _, _, v in rc['opts']}
@@ -969,11 +1093,13 @@ def run_cmd_case(rc, tmp, split_of=None, driver=None):
                                   'newfile-protocol'))
             else:
                 if fstate != 'u':
-                    fails.append(('existing / uncreatable output path was modified ({})'.format(rc['situation']),
-                                  'existing-file-modified'))
+                    fails.append(('existing / uncreatable output path was modified ({}): {}'.format(
+                        rc['situation'], '; '.join(seen_state['target_changes'])), 'existing-file-modified'))
                 if where != ['log'] or res.exit_code == 0 or tb:
                     fails.append(('output path {}: payload in {} exit {} traceback {} (must be on the error log, '
                                   'exit != 0)'.format(rc['situation'], where, res.exit_code, tb), 'results-dropped'))
+    if fails and path is not None:
+        inp = dict(inp, target=path, **seen_state)
     return line, impl, [(w, k, inp) for w, k in fails]
 
 
@@ -1051,6 +1177,7 @@ def merge_case(ctx, tmp, n, files, situation, rng):
     with instrument(rec):
         res, tb, err = invoke(argv)
     fstate, content = file_state(path, before)
+    seen_state = state_report()
     valid = files and all(t == 'ok' for t in files)
     pj = json.dumps(app.merge(*datas), sort_keys=True) if valid else None
     if res.exit_code == 2 and not tb and 'Usage:' in err:
@@ -1074,8 +1201,18 @@ def merge_case(ctx, tmp, n, files, situation, rng):
             (where == ['file'] and res.exit_code == 0) if fstok == 'creatable' else \
             (where == ['log'] and res.exit_code != 0 and fstate == 'u' and not tb)
         if not okk:
-            ctx.monitor_fail('merge: merged data dropped / misplaced: found in {} exit {} file state {}'.format(
-                where, res.exit_code, fstate), dict(meta, argv=argv), key='merge-results-dropped')
+            if fstok != 'creatable' and outarg not in (None, '-') and fstate != 'u':
+                ctx.monitor_fail('merge: existing / uncreatable output path was modified ({}): {}'.format(
+                    situation, '; '.join(seen_state['target_changes'])), dict(meta, argv=argv, target=path, **seen_state),
+                    key='existing-file-modified')
+            else:
+                ctx.monitor_fail('merge: merged data dropped / misplaced: found in {} exit {} file state {}'.format(
+                    where, res.exit_code, fstate), dict(meta, argv=argv), key='merge-results-dropped')
+    elif path is not None and fstate != 'u' and fstok != 'creatable':
+        # refused inputs (missing / unreadable / bad JSON): whatever happens, an existing target stays as it was
+        ctx.monitor_fail('merge with unusable input files modified the existing output path ({}): {}'.format(
+            situation, '; '.join(seen_state['target_changes'])), dict(meta, argv=argv, target=path, **seen_state),
+            key='existing-file-modified')
     shutil.rmtree(d, ignore_errors=True)
     shutil.rmtree(os.path.join(tmp, 'om{}'.format(n)), ignore_errors=True)
 
@@ -1343,6 +1480,12 @@ def part_d(ctx, tmp):
     existing = os.path.join(d, 'existing.json')
     with open(existing, 'w') as f:
         f.write('PRECIOUS\n')
+    empty = os.path.join(d, 'reserved-empty.json')      # e.g. a placeholder made by mktemp / touch
+    open(empty, 'w').close()
+    dangling = os.path.join(d, 'dangling-link.json')
+    os.symlink(os.path.join(d, 'not-there.json'), dangling)
+    targets_before = {'existing-file': snapshot(existing), 'existing-empty': snapshot(empty),
+                      'existing-dangling-symlink': snapshot(dangling)}
     pwn_file = os.path.join(d, 'pwned')
     rc1 = {'kind': 'diff', 'cmd': 'run', 'code': 'five_qubit', 'em': 'generic.depolarizing', 'dec': 'generic.naive',
            'probs': ['0.2', '0.4'], 'r': 5, 'f': None, 's': ctx.rng.randrange(100), 'ts': None, 'm': None}
@@ -1355,6 +1498,8 @@ def part_d(ctx, tmp):
         ('stdout', 'module', diff_argv(rc1), rc1, None),
         ('new-file', 'script', diff_argv(rc2, os.path.join(d, 'new.json')), rc2, os.path.join(d, 'new.json')),
         ('existing-file', 'module', diff_argv(rc1, existing), rc1, existing),
+        ('existing-empty', 'module', diff_argv(rc1, empty), rc1, empty),
+        ('existing-dangling-symlink', 'script', diff_argv(rc1, dangling), rc1, dangling),
         ('missing-dir', 'script', diff_argv(rc3, os.path.join(d, 'no', 'such', 'out.json')), rc3, None),
         ('ftp-stdout', 'module', diff_argv(rc3), rc3, None),
         ('nonliteral', 'module', ['run', "five_qubit(__import__('pathlib').Path({!r}).touch())".format(pwn_file),
@@ -1426,7 +1571,8 @@ def part_d(ctx, tmp):
         fail('subprocess -o new file: file content differs from the API result / non-zero exit', 'new-file',
              'newfile-protocol')
     # existing file and missing directory: untouched, data on stderr log, exit != 0, no traceback
-    for name, rc in (('existing-file', rc1), ('missing-dir', rc3)):
+    for name, rc in (('existing-file', rc1), ('existing-empty', rc1), ('existing-dangling-symlink', rc1),
+                     ('missing-dir', rc3)):
         rcode, so, se = results[name]
         n += 1
         logged = None
@@ -1437,6 +1583,17 @@ def part_d(ctx, tmp):
                 except ValueError:
                     pass
         untouched = open(existing).read() == 'PRECIOUS\n' and not os.path.exists(os.path.join(d, 'no'))
+        if name in targets_before:      # the target's full state (existence, inode, size, mode, mtime, content, link)
+            path = next(j[4] for j in jobs if j[0] == name)
+            changes = [c for c in snapshot_diff(targets_before[name], snapshot(path)) if not c.startswith('ancestor')]
+            if changes:
+                rcode_, so_, se_ = results[name]
+                ctx.monitor_fail('subprocess -o {}: the existing output path was modified: {}'.format(
+                    name, '; '.join(changes)), {'kind': 'subprocess', 'name': name,
+                                                'argv': next(j[2] for j in jobs if j[0] == name), 'exit': rcode_,
+                                                'target': path, 'target_changes': changes, 'stderr': se_[-400:]},
+                    key='existing-file-modified')
+                untouched = True    # reported above with the concrete change; the remaining clauses are still checked
         if not (rcode != 0 and 'Traceback' not in se and untouched and logged == api_json(rc) and so == ''
                 and 'recovered data' in se):
             fail('subprocess -o {}: results not preserved on the error log / file modified / zero exit'.format(name),
